@@ -8,7 +8,8 @@
 (* The mutation alphabet is the one of the property's quantifier:          *)
 (*   children  deleted / duplicated / reordered / re-namespaced / renamed  *)
 (*             / nested under the wrong parent (a sibling) / added with an *)
-(*             unknown name in a namespace the parser knows,               *)
+(*             unknown name in a namespace the parser knows / added as a   *)
+(*             sibling of another known kind / text moved to a sibling,    *)
 (*   attributes missing / empty / huge / negative / non-numeric,           *)
 (*   unknown enum strings, deep nesting.                                   *)
 (* Every action is addressed by a path (child indices from the root) and,  *)
@@ -24,7 +25,8 @@ EXTENDS Naturals, Sequences, FiniteSets, TLC
 
 CONSTANTS MaxMut,     \* longest mutation sequence
           Depths,     \* nesting depths offered to Nest (abstract: 1 = a few, 2 = tens, 3 = hundreds of levels)
-          MaxNodes    \* bound on the size of the abstract tree (duplications/nesting are cut there)
+          MaxNodes,   \* bound on the size of the abstract tree (duplications/nesting are cut there)
+          Alphabet    \* the moves used by Next (all of AllOps, except in XmlMutateGen3.cfg, see there)
 
 VARIABLES tree, nmut, hist
 mvars == <<tree, nmut>>
@@ -66,6 +68,13 @@ RECURSIVE Wrap(_, _)
 \* d further copies of the element's own shell around it: <x><x><x>...</x></x></x>
 Wrap(t, d) == IF d = 0 THEN t ELSE [t EXCEPT !.kids = <<Wrap(t, d - 1)>>]
 
+\* the namespaces the parsers branch on (abstract: those of the seed; concrete: for a parent element
+\* (namespace, name) every namespace a child of such an element has anywhere in the corpus)
+KnownNs == {"client", "ext1", "ext2"}
+\* the element kinds <<name, namespace>> a parser knows as children (abstract: the child kinds of the
+\* seed; concrete: for a parent kind every child kind that occurs under it anywhere in the corpus)
+KnownKinds == << <<"payload", "ext1">>, <<"item", "ext1">>, <<"other", "ext2">> >>
+
 \* the local effect of a mutation m on the element it addresses
 Here(t, m) ==
     CASE m.op = "DeleteChild"      -> [t EXCEPT !.kids = RemoveAt(@, m.i)]
@@ -79,6 +88,17 @@ Here(t, m) ==
             IN [t EXCEPT !.kids = RemoveAt(k2, m.i)]
       [] m.op = "Renamespace"      -> [t EXCEPT !.ns = "foreign"]
       [] m.op = "Rename"           -> [t EXCEPT !.tag = "unknown"]    \* a child name the parent does not know
+      \* next to child i a sibling of ANOTHER known kind (a name/namespace that occurs under this kind of
+      \* parent), empty or carrying the text of the child it is placed next to
+      [] m.op = "AddKnownSibling"  ->
+            LET k == KnownKinds[m.kind]
+                txt == IF m.txt /\ "v" \in DOMAIN t.kids[m.i].attrs THEN [a \in {"v"} |-> t.kids[m.i].attrs["v"]] ELSE [a \in {} |-> "text"]
+            IN [t EXCEPT !.kids = InsertAfter(@, IF m.after THEN m.i ELSE m.i - 1, Leaf(k[1], k[2], txt))]
+      \* the character data of child i moves to its right neighbour
+      [] m.op = "MoveText"         ->
+            LET src == t.kids[m.i] dst == t.kids[m.i + 1]
+            IN [t EXCEPT !.kids[m.i] = [src EXCEPT !.attrs = [a \in (DOMAIN @) \ {"v"} |-> @[a]]],
+                         !.kids[m.i + 1] = [dst EXCEPT !.attrs = [a \in (DOMAIN @) \cup {"v"} |-> IF a = "v" THEN src.attrs["v"] ELSE @[a]]]]
       \* a new first child with an unknown name in a namespace the parser knows
       [] m.op = "AddUnknownChild"  -> [t EXCEPT !.kids = <<Leaf("unknown", m.ns, [a \in {} |-> "text"])>> \o @]
       [] m.op = "DropAttr"         -> [t EXCEPT !.attrs = [a \in (DOMAIN @) \ {m.a} |-> @[a]]]
@@ -94,9 +114,6 @@ Apply(t, p, m) == IF p = <<>> THEN Here(t, m)
                   ELSE [t EXCEPT !.kids[Head(p)] = Apply(@, Tail(p), m)]
 
 (* --- which mutations are possible on a tree -------------------------------- *)
-\* the namespaces the parsers branch on (abstract: those of the seed; concrete: for a parent element
-\* (namespace, name) every namespace a child of such an element has anywhere in the corpus)
-KnownNs == {"client", "ext1", "ext2"}
 ChildOps == {"DeleteChild", "DuplicateChild", "SwapSiblings", "MoveUnderSibling"}
 AttrOps  == {"DropAttr", "EmptyAttr", "HugeAttr", "NegativeAttr", "NonNumericAttr", "UnknownEnum"}
 
@@ -110,6 +127,9 @@ Enabled(t, m) ==
           [] m.op = "Renamespace"        -> e.ns # "foreign"
           [] m.op = "Rename"             -> m.p # <<>> /\ e.tag # "unknown"   \* the root keeps its identity (OneRoot)
           [] m.op = "AddUnknownChild"    -> m.ns \in KnownNs /\ Size(t) + 1 <= MaxNodes
+          [] m.op = "AddKnownSibling"    -> /\ m.i \in 1..Len(e.kids) /\ Size(t) + 1 <= MaxNodes
+                                            /\ KnownKinds[m.kind] # <<e.kids[m.i].tag, e.kids[m.i].ns>>
+          [] m.op = "MoveText"           -> m.i \in 1..(Len(e.kids) - 1) /\ "v" \in DOMAIN e.kids[m.i].attrs
           [] m.op \in {"DropAttr", "EmptyAttr", "HugeAttr"} -> m.a \in DOMAIN e.attrs /\ e.attrs[m.a] # m.to
           \* a negative or non-numeric value is interesting where a number is expected,
           \* an unknown word where one of a fixed set is expected
@@ -125,6 +145,7 @@ Target(op) == CASE op = "EmptyAttr" -> "empty" [] op = "HugeAttr" -> "huge" [] O
 \* one-step mutation at every element, attribute and character-data position of every seed
 \* (character data of a leaf is modelled as an attribute).  AllOps is the alphabet.
 AllOps == {"DeleteChild", "DuplicateChild", "SwapSiblings", "MoveUnderSibling", "Renamespace", "Rename", "AddUnknownChild",
+           "AddKnownSibling", "MoveText",
            "DropAttr", "EmptyAttr", "HugeAttr", "NegativeAttr", "NonNumericAttr", "UnknownEnum", "Nest"}
 
 Moves(t) ==
@@ -133,6 +154,9 @@ Moves(t) ==
       \cup {[op |-> "Renamespace", p |-> p] : p \in P}
       \cup {[op |-> "Rename", p |-> p] : p \in P}
       \cup {[op |-> "AddUnknownChild", p |-> p, ns |-> n] : p \in P, n \in KnownNs}
+      \cup {[op |-> "AddKnownSibling", p |-> p, i |-> i, kind |-> k, after |-> af, txt |-> tx] :
+                p \in P, i \in 1..3, k \in DOMAIN KnownKinds, af \in {TRUE}, tx \in BOOLEAN}   \* "before" is a variant of the concrete binding only
+      \cup {[op |-> "MoveText", p |-> p, i |-> i] : p \in P, i \in 1..2}
       \cup {[op |-> o, p |-> p, a |-> a, to |-> Target(o)] : o \in AttrOps, p \in P, a \in AttrNames}
       \cup {[op |-> "Nest", p |-> p, d |-> d] : p \in P, d \in Depths}
 
@@ -148,7 +172,7 @@ Mutate(m) ==
     /\ nmut' = nmut + 1
     /\ hist' = Append(hist, Rec(m))
 
-Next == \E m \in Moves(tree) : Mutate(m)
+Next == \E m \in Moves(tree) : m.op \in Alphabet /\ Mutate(m)
 
 Spec == Init /\ [][Next]_vars
 
